@@ -2,6 +2,7 @@ package shimagent
 
 //vsym:pkg github.com/theparanoids/ysshra/agent/shimagent
 //vsym:include shim/world.go
+//vsym:include shim/peek.go || shim/peek_bb.go
 //vsym:entry H08_locked
 //vsym:entry H08_unlock
 //vsym:replay same-harness
@@ -41,7 +42,7 @@ func h08Snapshot(s *Server, up *mwUpstream) (int, int, string) {
 	for _, id := range up.ids {
 		ids += string(id.blob) + ";"
 	}
-	return len(s.certs), len(s.upstreamSSHCACertCache), ids
+	return mwMemLen(s), mwCacheLen(s), ids
 }
 
 func h08ListBlobs(keys []*agent.Key) string {
@@ -108,9 +109,9 @@ func H08_locked() {
 	nc2, ncache2, ids2 := h08Snapshot(s, up)
 	vAssert(nc2 == nc && ncache2 == ncache && ids2 == ids, "C08.locked-operation-changes-nothing")
 	vAssert(up.calls == calls, "C08.locked-operation-does-not-reach-the-underlying-agent")
-	vAssert(s.locked, "C08.stays-locked")
-	if c, ok := s.conn.(*mwConn); ok {
-		vAssert(!c.closed, "C08.locked-close-does-not-close")
+	vAssert(!mwPeek || mwLocked(s), "C08.stays-locked")
+	if mwLastConn != nil {
+		vAssert(!mwLastConn.closed, "C08.locked-close-does-not-close")
 	}
 }
 
@@ -126,7 +127,7 @@ func H08_unlock() {
 		calls := up.calls
 		err := s.Unlock([]byte("x"))
 		vAssert(err != nil, "C08.unlock-of-unlocked-agent-is-an-error")
-		vAssert(!s.locked && up.calls == calls, "C08.unlock-of-unlocked-agent-changes-nothing")
+		vAssert((!mwPeek || !mwLocked(s)) && up.calls == calls, "C08.unlock-of-unlocked-agent-changes-nothing")
 		vReach("C08.unlock-when-unlocked")
 		return
 	}
@@ -136,14 +137,23 @@ func H08_unlock() {
 	if refuseLock {
 		up.failAt = up.calls
 	}
+	p0 := append([]byte(nil), p...)
+	vFreeze("C08.passphrase-argument-not-modified", p)
 	err := s.Lock(p)
+	vCheckFrozen()
+	vThaw()
+	// the caller wipes its buffer once the call has returned
+	for i := range p {
+		p[i] = 0xAA
+	}
+	p = p0
 	if refuseLock {
 		vAssert(err != nil, "C08.refused-lock-is-an-error")
-		vAssert(!s.locked, "C08.refused-lock-leaves-shim-unlocked")
+		vAssert(!mwPeek || !mwLocked(s), "C08.refused-lock-leaves-shim-unlocked")
 		vReach("C08.lock-refused-upstream")
 		return
 	}
-	vAssert(err == nil && s.locked, "C08.lock-succeeds")
+	vAssert(err == nil && (!mwPeek || mwLocked(s)), "C08.lock-succeeds")
 	if err != nil {
 		return
 	}
@@ -157,12 +167,12 @@ func H08_unlock() {
 	err = s.Unlock(q)
 	same := len(p) == len(q) && vEqBytes(p, q)
 	if refuseUnlock != 0 {
-		vAssert(err != nil && s.locked, "C08.refused-unlock-leaves-shim-locked")
+		vAssert(err != nil && (!mwPeek || mwLocked(s)), "C08.refused-unlock-leaves-shim-locked")
 		vReach("C08.unlock-refused-upstream")
 		return
 	}
 	vAssert(vIff(err == nil, same), "C08.only-the-passphrase-unlocks")
-	vAssert(vIff(s.locked, !same), "C08.wrong-passphrase-stays-locked")
+	vAssert(!mwPeek || vIff(mwLocked(s), !same), "C08.wrong-passphrase-stays-locked")
 	vCover(!same, "C08.wrong-passphrase")
 	if err != nil {
 		l, lerr := s.List()
